@@ -21,6 +21,11 @@ type C01Case struct {
 	Graph []int        `json:"graph"`
 	Roots []int        `json:"roots"`
 	Order []int        `json:"order"`
+	// Interleave: each graph is built only right before its own back-propagation (after the
+	// earlier graphs were back-propagated) instead of all graphs first. The graphs then share
+	// untracked leaves only (a tracked leaf belongs to one graph), so that no graph is built
+	// from a tensor an earlier back-propagation passed through.
+	Interleave bool `json:"interleave,omitempty"`
 }
 
 func init() { register("C01/dag", checkC01) }
@@ -43,8 +48,27 @@ func genC01(t *rapid.T) C01Case {
 	}
 	var c C01Case
 	budget := 16
+	if ng > 1 && rapid.Bool().Draw(t, "interleave") {
+		c.Interleave = true
+		for gi := 0; gi < ng; gi++ {
+			any := false
+			for _, l := range leaves {
+				if !g.P.Leaves[l].Tracked || l%ng == gi {
+					any = true
+				}
+			}
+			if !any {
+				c.Interleave = false
+			}
+		}
+	}
 	for gi := 0; gi < ng; gi++ {
-		pool := append([]int{}, leaves...)
+		var pool []int
+		for _, l := range leaves {
+			if !c.Interleave || !g.P.Leaves[l].Tracked || l%ng == gi {
+				pool = append(pool, l)
+			}
+		}
 		hi := budget - (ng-gi-1)*2
 		if hi > 14 {
 			hi = 14
@@ -209,13 +233,63 @@ func checkC01(c C01Case) *Failure {
 	cls.multi = len(c.Order) > 1
 
 	// library
-	vals, err := prog.RunLib(c.P)
-	if err != nil {
-		return failf("forward call rejected on a valid program: %v", err)
-	}
-	for _, gi := range c.Order {
-		if err := tensor.BackPropagate(vals[c.Roots[gi]]); err != nil {
-			return failf("BackPropagate(root of graph %d) returned error: %v", gi, err)
+	var vals []tensor.Tensor
+	if !c.Interleave {
+		var err error
+		vals, err = prog.RunLib(c.P)
+		if err != nil {
+			return failf("forward call rejected on a valid program: %v", err)
+		}
+		for _, gi := range c.Order {
+			if err := tensor.BackPropagate(vals[c.Roots[gi]]); err != nil {
+				return failf("BackPropagate(root of graph %d) returned error: %v", gi, err)
+			}
+		}
+	} else {
+		// a tracked leaf may serve one graph only
+		owner := make([]int, nl)
+		for i := range owner {
+			owner[i] = -1
+		}
+		for i, n := range c.P.Nodes {
+			for _, o := range n.In {
+				if o < nl && c.P.Leaves[o].Tracked {
+					if owner[o] >= 0 && owner[o] != c.Graph[i] {
+						return nil
+					}
+					owner[o] = c.Graph[i]
+				}
+			}
+		}
+		vals = make([]tensor.Tensor, total)
+		for i, l := range c.P.Leaves {
+			x, err := lib.NewVia(l.Shape, l.Vals, l.Tracked, l.Via)
+			if err != nil {
+				return failf("leaf %d: %v", i, err)
+			}
+			vals[i] = x
+		}
+		for _, gi := range c.Order {
+			for i, n := range c.P.Nodes {
+				if c.Graph[i] != gi {
+					continue
+				}
+				in := make([]tensor.Tensor, len(n.In))
+				for k, o := range n.In {
+					in[k] = vals[o]
+					if in[k] == nil {
+						return nil
+					}
+				}
+				y, err := prog.ApplyLib(n, in, nil)
+				if err != nil {
+					return failf("forward call rejected on a valid program (graph %d built after earlier back-propagations): node %d (%s): %v", gi, i, n.Op, err)
+				}
+				vals[nl+i] = y
+			}
+			if err := tensor.BackPropagate(vals[c.Roots[gi]]); err != nil {
+				return failf("BackPropagate(root of graph %d) returned error: %v", gi, err)
+			}
 		}
 	}
 	for i := 0; i < total; i++ {
@@ -255,6 +329,9 @@ func checkC01(c C01Case) *Failure {
 	}
 	if cls.multi {
 		evid.Class("c01.multi_graph_shared_leaves")
+	}
+	if c.Interleave {
+		evid.Class("c01.graphs_built_between_backpropagations")
 	}
 	if cls.rootNotLast {
 		evid.Class("c01.root_not_last")
